@@ -28,7 +28,7 @@ PEER = lambda cid: ("127.0.0.1", 40000 + cid)
 
 BAD_KINDS = ["not-json", "json-number", "json-list", "no-action-type", "no-parameters", "unknown-type",
              "unknown-param", "param-wrong-shape", "invalid-ip", "missing-required", "undecodable-bytes",
-             "invalid-network", "empty", "params-not-dict", "extra-field-in-value", "invalid-utf8-in-json", "invalid-utf8-in-json", "reset-bad-flag", "reset-bad-flag", "reset-unknown-param", "join-wrong-shape", "network-mask-not-int"]
+             "invalid-network", "empty", "params-not-dict", "extra-field-in-value", "invalid-utf8-in-json", "invalid-utf8-in-json", "reset-bad-flag", "reset-bad-flag", "reset-unknown-param", "join-wrong-shape", "join-wrong-shape", "network-mask-not-int", "garbage-buffer-size"]
 
 
 def bad_message(kind, rng):
@@ -79,7 +79,12 @@ def bad_message(kind, rng):
     if kind == "reset-unknown-param":
         return json.dumps({"action_type": "ActionType." + rng.choice(["ResetGame", "QuitGame", "JoinGame"]), "parameters": {"speed": "9"}}).encode()
     if kind == "join-wrong-shape":
-        return json.dumps({"action_type": "ActionType.JoinGame", "parameters": {"agent_info": rng.choice(["Attacker", {"name": "x"}, ["x", "Attacker"], {"name": "x", "role": "Attacker", "team": 1}])}}).encode()
+        return json.dumps({"action_type": "ActionType.JoinGame", "parameters": {"agent_info": rng.choice(["Attacker", {"name": "x"}, ["x", "Attacker"], {"name": "x", "role": "Attacker", "team": 1},
+                                                                                                       # a role that is not even a string (unhashable / number / null)
+                                                                                                       {"name": "x", "role": ["Attacker"]}, {"name": "x", "role": {"Attacker": 1}},
+                                                                                                       {"name": "x", "role": 7}, {"name": "x", "role": None}])}}).encode()
+    if kind == "garbage-buffer-size":      # exactly as long as the server's read buffer (one read = one message still holds)
+        return (b"{" + b"x" * 8191) if rng.random() < 0.5 else (b" " * 8192)
     raise ValueError(kind)
 
 
@@ -126,7 +131,7 @@ def gen_config(rng, scenario="scenario1_small"):
     if rng.random() < 0.3:
         dgoal["known_blocks"] = {"192.168.1.2": ["192.168.2.2"]}
     start_data = {"192.168.2.2": [["User1", "StartData"]]} if ("192.168.2.2" in start_ctrl and rng.random() < 0.4) else {}
-    att = {"goal": dict(goal, description="goal"), "start_position": {"known_networks": [], "known_hosts": [], "controlled_hosts": start_ctrl,
+    att = {"goal": dict(goal, description="goal"), "start_position": {"known_networks": rng.choice([[], [], ["213.47.23.192/26"], ["192.168.1.0/24", "213.47.23.192/26"]]), "known_hosts": rng.choice([[], [], ["192.168.1.3"]]), "controlled_hosts": start_ctrl,
                                                                       "known_services": {}, "known_data": start_data, "known_blocks": {}}}
     if ms_att is not None:
         att["max_steps"] = ms_att
@@ -282,6 +287,13 @@ class Session:
                     fail({"C04", "C19"}, "goal-not-as-configured", f"the {role} goal the game checks is not the configured one: configured {cfg['coordinator']['agents'][role]['goal']}, "
                          f"used {self.settings['goal'][role]}", {"kind": "config", "config": cfg})
                     self.settings["goal"][role] = goal2j(gw)
+        # static addresses: the goals stay what the configuration writes, for the whole session (whatever any agent achieves)
+        self.goal_written = {}
+        if not cfg["env"].get("use_dynamic_addresses"):
+            for role in ("Attacker", "Defender"):
+                gw = goal_as_written(cfg["coordinator"]["agents"][role]["goal"])
+                if gw is not None:
+                    self.goal_written[role] = canon_goal(goal2j(gw))
         drv.ask({"op": "coord_init", "settings": self.settings})
         self.model_state = None
         self.broken = False
@@ -887,6 +899,15 @@ class Session:
                     if self.bonus_seen[k] > 1:
                         self.fail({"C04", "C05"}, "two-finals", f"connection {c} received two final observations in one episode", self.replay())
         co = self.coord
+        for role, gw in list(self.goal_written.items()):
+            try:
+                now = canon_goal(goal2j(co._win_conditions_per_role[role]))
+            except Exception:
+                continue
+            if now != gw:
+                self.fail({"C04", "C12", "C19"}, "goal-changed-during-play", f"after {kind} on {cid} the {role} goal the game checks is no longer the configured one: it was {gw}, it is {now} "
+                          f"(what one agent achieves must not change what the others have to achieve)", self.replay())
+                del self.goal_written[role]
         if ev.get("must_refuse"):
             # an action the world cannot process on a path where it certainly tries (same connection as the valid action just
             # before it): the only acceptable answer is BAD_REQUEST - whatever the world's step() does with its own exception
@@ -927,6 +948,14 @@ class Session:
                     cur = co._ip_mapping.get(IP(x), IP(x)) if dyn and getattr(co, "_ip_mapping", None) else IP(x)
                     if cur not in getattr(v, part):
                         self.fail(tags, f"start-view-missing:{part}:{o['code']}", f"{part} of the start position lists {x} (now {cur}) but the initial view sent with {o['code']} to {c} does not contain it", self.replay())
+            for x in sp.get("known_networks", []):
+                try:
+                    n0 = Network(str(x).split("/")[0], int(str(x).split("/")[1]))
+                except Exception:
+                    continue
+                cur = co._network_mapping.get(n0, n0) if dyn and getattr(co, "_network_mapping", None) else n0
+                if cur not in v.known_networks:
+                    self.fail(tags, f"start-view-missing:known_networks:{o['code']}", f"known_networks of the start position lists {x} (now {cur}) but the initial view sent with {o['code']} to {c} does not contain it", self.replay())
         if dyn:
             # a reset that completed during this event re-labelled the goals (its RESET_DONE may have been lost with a
             # failing connection): the model continues with the goals the coordinator uses now
@@ -1156,7 +1185,7 @@ class Script:
             if self.all_twins or r2 < p.get("twin_names", 0.12):
                 name = "twin"                              # several agents may use one name (and role)
             elif r2 < p.get("twin_names", 0.12) + p.get("long_names", 0.02):
-                name = "n" * rng.choice([5000, 7800])      # a long name (the request still fits one read of 8192 bytes, the welcome message does not)
+                name = "n" * rng.choice([5000, 7800, 8192 - len(J(ActionType.JoinGame, agent_info=AgentInfo("", role)))])      # a long name (the request still fits one read of 8192 bytes - the last choice fills it exactly -, the welcome message does not)
             elif r2 < p.get("twin_names", 0.12) + p.get("long_names", 0.02) + 0.04:
                 name = rng.choice(["a/b", "../up", "sp ace", "d'Art", "ünï", "a_b", ".", "x" * 300])
             return {"t": "msg", "c": cid, "m": {"k": "join", "name": name, "role": role if role in ROLES else None},
@@ -1184,7 +1213,10 @@ class Script:
         if rng.random() < p.get("goal_push", 0.0):
             a = Action(ActionType.ScanNetwork, {"source_host": IP("192.168.2.2"), "target_network": Network("192.168.1.0", 24)})
         roll = rng.choice([0.0, 0.01, 0.03, 0.2, 0.9, rng.random()])
-        return {"t": "msg", "c": cid, "m": {"k": "game", "act": s.akey(a)}, "raw_bytes": a.to_json().encode(), "roll": roll}
+        raw = a.to_json().encode()
+        if rng.random() < 0.02 and len(raw) < 8192:
+            raw = raw + b" " * (8192 - len(raw))      # padded with white space to exactly the size of the read buffer
+        return {"t": "msg", "c": cid, "m": {"k": "game", "act": s.akey(a)}, "raw_bytes": raw, "roll": roll}
 
 
 def run_sessions(drv, rng, defender_tables, on_fail, stats, n_sessions, n_events, profile=None, cfg_gen=gen_config):
@@ -1561,6 +1593,8 @@ def directed_find_services(drv, rng, defender_tables, on_fail, stats, n):
         att.pop("max_steps", None)
         att["goal"].update({"known_networks": [], "known_hosts": [], "controlled_hosts": [], "known_services": {}, "known_blocks": {},
                             "known_data": {"213.47.23.195": [["User9", "NoSuchData"]]}})
+        if rng.random() < 0.5:      # the rarely used option: a service the agent knows from the start - on a host that runs nothing
+            att["start_position"]["known_services"] = {rng.choice(["192.168.2.1", "192.168.1.1"]): ["ssh", "passive", "1.0", False]}
         sess = Session(drv, rng, cfg, defender_tables, on_fail, stats, f"find-services#{i}")
         try:
             if sess.sim.startup_error is not None or sess.sim.server_cb is None:
@@ -1807,6 +1841,76 @@ def probe_leave_unwritable_store(on_fail, stats):
             if sim.conns[2].writer.closed or PEER(2) not in sim.coord.agents:
                 on_fail({"C10", "C18"}, f"leave-unwritable-store:{how}:no-rejoin",
                         f"trajectory store unwritable, agent a left by {how}: a new agent connecting afterwards is {'refused' if sim.conns[2].writer.closed else 'not registered by its JoinGame'}", rep)
+        finally:
+            sim.close()
+
+
+def probe_marker_in_values(on_fail, stats):
+    """Valid messages whose VALUES contain the text of the end-of-message marker ("EOF"), white space at their ends, or
+    other text a careless splitter would trip over: an agent named GEOFF, a service called EOFd, a datapoint report_EOF_2024.
+    Each must arrive at the game as it was sent: JoinGame confirmed, the action answered OK, and the action the coordinator
+    remembers for the agent equal to the action sent (C14; an answer at all: C01; not a refusal: C09)."""
+    from AIDojoCoordinator.game_components import ProtocolConfig
+    marker = ProtocolConfig.END_OF_MESSAGE.decode() if isinstance(ProtocolConfig.END_OF_MESSAGE, bytes) else str(ProtocolConfig.END_OF_MESSAGE)
+    cfg = default_config(env={"required_players": 1})
+    for name in ("G" + marker + "F", marker, "x " + marker + " y"):
+        sim = Sim(cfg)
+        try:
+            if sim.startup_error is not None or sim.server_cb is None:
+                return
+            sim.connect(0)
+            sim.send(0, J(ActionType.JoinGame, agent_info=AgentInfo(name, "Attacker")))
+            outs = [(c, k, (parse_reply(p)[1] or {}).get("status") if k == "reply" else None) for c, k, p in sim.outputs()]
+            stats["probe_marker_in_values"] = stats.get("probe_marker_in_values", 0) + 1
+            rep = {"kind": "config-session", "config": cfg, "script": [f"JoinGame as {name!r}"]}
+            if outs != [(0, "reply", "GameStatus.CREATED")] or sim.coord.agents.get(PEER(0), (None,))[0] != name:
+                on_fail({"C14", "C01", "C09"}, "marker-in-value:join", f"JoinGame of an agent named {name!r}: expected CREATED and the name registered as sent, got {outs}, registered {sim.coord.agents.get(PEER(0))}", rep)
+                continue
+            src = IP("192.168.2.2")
+            acts = [Action(ActionType.ExploitService, {"source_host": src, "target_host": IP("192.168.1.2"), "target_service": Service(marker + "d", "passive", "1." + marker, False)}),
+                    Action(ActionType.ExfiltrateData, {"source_host": src, "target_host": IP("213.47.23.195"), "data": Data("User1", "report_" + marker + "_2024")}),
+                    Action(ActionType.ExfiltrateData, {"source_host": src, "target_host": IP("213.47.23.195"), "data": Data(" lead", "trail ", 3, " t ")}),
+                    Action(ActionType.ExploitService, {"source_host": src, "target_host": IP("192.168.1.3"), "target_service": Service(" ssh", "passive ", "14.3.0 ", False)})]
+            for a in acts:
+                sim.send(0, a.to_json())
+                outs = [(c, k, (parse_reply(p)[1] or {}).get("status") if k == "reply" else None) for c, k, p in sim.outputs()]
+                got = sim.coord._agent_last_action.get(PEER(0))
+                if outs != [(0, "reply", "GameStatus.OK")] or not (got == a):
+                    on_fail({"C14", "C01", "C09"}, "marker-in-value:" + str(a.type).split(".")[-1], f"a valid {a.type} whose values contain the marker text / white space at their ends ({a.to_json()[:200]}): "
+                            f"expected OK and the action to arrive as sent, got {outs}, arrived as {str(got)[:200]}", dict(rep, script=rep["script"] + [a.to_json()]))
+                    break
+        finally:
+            sim.close()
+
+
+def probe_same_peer_slots(on_fail, stats):
+    """Two connections that report the SAME peer name are served at the same time (asyncio reports peername None for a peer
+    that is already gone when its handler starts); both end.  Their two slots must come back: two new agents can connect
+    and join afterwards (C18)."""
+    for peer in (None, ("127.0.0.1", 40000)):
+        cfg = default_config(env={"required_players": 2})
+        sim = Sim(cfg)
+        try:
+            if sim.startup_error is not None or sim.server_cb is None:
+                return
+            for cid in (0, 1):
+                c = sim.connect(cid, settle=False)
+                c.writer.peer = peer
+            sim.settle()
+            sim.eof(0)
+            sim.eof(1)
+            sim.outputs()
+            stats["probe_same_peer_slots"] = stats.get("probe_same_peer_slots", 0) + 1
+            served = []
+            for cid in (2, 3):
+                sim.connect(cid)
+                sim.send(cid, J(ActionType.JoinGame, agent_info=AgentInfo(f"n{cid}", "Attacker")))
+                served.append(not sim.conns[cid].writer.closed and PEER(cid) in sim.coord.agents)
+            sim.outputs()
+            if not all(served):
+                on_fail({"C18"}, "same-peer-slots", f"two connections reporting the same peer name {peer!r} were served and ended; of the two agents connecting afterwards (limit 2) "
+                        f"{served.count(False)} was/were refused: the server counts {getattr(sim.server_cb, 'current_connections', '?')} connections",
+                        {"kind": "config-session", "config": cfg, "script": [f"two connections with peer name {peer!r}", "both: EOF", "two new agents connect and join"]})
         finally:
             sim.close()
 
